@@ -821,6 +821,10 @@ func (x *Exec) allocAddr(st *State, hint string) *Term {
 	// allocation time stamps: the new object is the one allocated at the next tick
 	st.alloc = Add(st.alloc, IntLit(1))
 	st.assumeRaw(Eq(App("alloctime", SInt, a), st.alloc))
+	if strings.Contains(hint, "Closer") || strings.Contains(hint, "file") || strings.Contains(hint, "handle") {
+		// a handle that did not exist yet has not been closed
+		st.assumeRaw(Eq(Select(st.ghostArr("closedh", SInt), a), IntLit(0)))
+	}
 	if _, ok := st.ghost["hijacked"]; ok || strings.Contains(hint, "Responder") {
 		// nothing can have hijacked a responder that did not exist yet
 		st.assumeRaw(Eq(Select(st.ghostArr("hijacked", SInt), a), IntLit(0)))
